@@ -54,7 +54,7 @@ CHECKS["C10"] = {
     "thorough": {"match": "^[HT]10", "budget": 3000, "query_timeout_ms": 120000},
     "what": "every public parsing / serialisation / validation entry point executed on untrusted input with all implicit panic "
             "obligations (nil dereference, index, slice bounds incl. capacity, make size, type assertion, explicit panic) as solver queries "
-            "and unwinding assertions on every loop",
+            "and unwinding assertions on every loop H10k/l: verify.SupportedTcbLevelsFromCollateral on a structurally arbitrary message after an accepted verification with collateral, on options without collateral and on nil arguments",
     "bounds": {"raw_input_length": "0..2^20 symbolic", "message_field_length": "0..70000 symbolic (0..100 for validation)", "rtmr_count": "0..5"},
     "outside": ["panics inside the Go standard library or dependencies behind stubs", "inputs of 4 GiB and more"],
     "assumptions": ["fmt.Errorf returns a non-nil error; logger is a no-op"],
@@ -69,7 +69,7 @@ CHECKS["C15"] = {
             "repository's own interfaces) whose results, status, OutLen (full uint32) and buffers are symbolic; asserted: the report request carries "
             "the caller's 64 bytes, the quote request carries the 1024-byte TD report (InLen 1024, Length 16384), err == nil iff every device outcome "
             "is good and 0 < OutLen <= 16384, the result is exactly the first OutLen bytes the device wrote; provider bytes/error verbatim, no device "
-            "access when supported, fall-back when not; GetQuote parses exactly the fetched bytes",
+            "access when supported, fall-back when not; GetQuote parses exactly the fetched bytes H15f: a raw quote handed out earlier is unchanged after a later fetch of any outcome (no buffer shared between calls)",
     "bounds": {"device_results": "full uintptr/uint64/uint32", "buffers": "1024-byte report, 16384-byte quote buffer, all symbolic"},
     "outside": ["the real ioctl path behind unsafe.Pointer (LinuxDevice.Ioctl is replaced by the scripted device after unix.Open)", "the real configfs quote provider"],
     "assumptions": ["unix.Open returns (fd, nil) or (-1, err)", "abi.QuoteToProto is a stub in H15d (it is C09/C10's subject)"],
@@ -112,7 +112,7 @@ CHECKS["C13"] = {
             "extractAsn1OctetStringExtension, asn1OctetString, asn1U8, asn1U16, sgxTcbComponentOid, ObjectIdentifier.Equal) with encoding/asn1.Unmarshal "
             "replaced by a contract stub that delivers the decoded structure the harness attached to each DER blob; all 18 TCB values symbolic int64, "
             "CPUSVN / PPID / PCE-ID / FMSPC of symbolic length around the required size and symbolic content; orders: 5 permutations of the 18 TCB "
-            "elements (one derived from VERIF_SEED) x 4 of the sub-extensions; n<=3 elements with symbolic OID arc 1..20; malformed variants",
+            "elements (one derived from VERIF_SEED) x 4 of the sub-extensions; n<=3 elements with symbolic OID arc 1..20; malformed variants Platform certificates: 7 sub-extensions (SGX type, platform instance id, configuration besides the mandatory four) in 6 orders, one derived from VERIF_SEED",
     "bounds": {"tcb_element_orders": "4 fixed + 1 seeded permutation", "sub_extension_orders": "4", "symbolic_oid_elements": "n<=3, arc 1..20"},
     "outside": ["encoding/asn1's DER decoding itself", "certificates whose SGX extension omits an element while keeping the element count",
                 "order independence for all 18! orders: decided for 5 orders plus, for n<=3 elements with symbolic OIDs, that each element updates exactly its own slot"],
@@ -149,11 +149,11 @@ CHECKS["C20"] = {
             "symbolic duration >= 0 and fails or succeeds by a symbolic boolean, and a model clock: context.WithTimeout / time.After are model "
             "channels with a fire time and the SSA select picks any channel ready at the earliest fire time; asserted: first success returned "
             "as the very objects and no later call, every wait > 0 and <= MaxRetryDelay, no attempt starts after the deadline, on persistent "
-            "failure an error by the deadline or the end of the attempt in flight, attempts <= K",
-    "bounds": {"attempts": "K = 6 quick, 12 thorough (unwinding assertion; Timeout <= (K-2)*min(4s, MaxRetryDelay))", "MaxRetryDelay": "> 0"},
+            "failure an error by the deadline or the end of the attempt in flight, attempts <= K H20d: 40 attempts (maximum delay 1..1000 ns, calls take no time): waits stay > 0 and <= the maximum beyond the 32nd doubling; H20e: a getter value used before (any time ago) still retries and returns a success that comes inside its timeout",
+    "bounds": {"attempts": "K = 6 quick, 12 thorough (unwinding assertion; Timeout <= (K-2)*min(4s, MaxRetryDelay)); 40 attempts in H20d with MaxRetryDelay <= 1000 ns", "MaxRetryDelay": "> 0"},
     "outside": ["MaxRetryDelay <= 0 (busy loop / probabilistic termination: the statement's two requirements contradict each other there)",
-                "wall-clock behaviour of the real runtime and scheduler", "delay doubling overflow (needs > 2^32 s of waiting)",
-                "behaviour after more than K consecutive failures (seeded change C20B needs 33 and passes)"],
+                "wall-clock behaviour of the real runtime and scheduler", "overflow of the running sum delay + delay (needs > 2^32 s of waiting)",
+                "more than 40 consecutive failures"],
     "assumptions": ["Go select semantics: blocks until a case is ready, picks any ready case (model)", "context.WithTimeout's Done channel fires at the deadline (model)",
                     "time.After / time.NewTimer(+Stop, Reset) channels fire after their duration of model time; time.Sleep advances model time"],
 }
@@ -234,7 +234,7 @@ CHECKS["C05"] = {
             "issuer names and signers, 0..3 root-CRL distribution points each answering ok / error / garbage; asserted: accept implies both CRLs "
             "obtained, CrlSigBy(root CRL, chain root) and for the collateral issuer roots, CrlSigBy(PCK CRL, intermediate), issuer names match, leaf "
             "serial not in the PCK CRL, intermediate / TCB-Info signer / QE-Identity signer serials not in the Root CA CRL; revocation without "
-            "collateral always fails and fetches nothing",
+            "collateral always fails and fetches nothing H05g: the same conditions on an options value that verified the quote before (collateral only); H05h: an options value that fetched collateral before and is switched to revocation-without-collateral fails and fetches nothing",
     "bounds": {"revoked_entries_per_crl": "0..1 quick, 0..3 thorough", "distribution_points": "0..2 quick, 3 thorough", "serials": "64-bit symbolic"},
     "outside": ["serial numbers wider than 64 bits", "CRL parsing itself (contract stub)"],
     "assumptions": PKI_ASSUME + ["RevocationList.CheckSignatureFrom nil iff CrlSigBy(crl, parent key)", "big.Int.Cmp compares the serial values"],
@@ -248,7 +248,7 @@ CHECKS["C06"] = {
     "what": "verify.TdxQuote at the three option levels with five symbolic verification instants (unconstrained relative to each other), symbolic "
             "NotBefore/NotAfter of all nine certificate roles and symbolic nextUpdate of both documents and both CRLs; asserted: accept implies each "
             "artifact is not past its limit at ITS OWN time-set entry and path elements are inside their validity window; also with Options.Now nil "
-            "(time.Now stubbed by a symbolic wall clock)",
+            "(time.Now stubbed by a symbolic wall clock) H06g (T06h with revocation): the same conditions on an options value that verified the same quote at earlier, unrelated times",
     "bounds": {"times": "0..2^40 s, all symbolic"},
     "outside": ["wall-clock reads between the five time.Now() calls of defaultTimeSet are one instant in the model"],
     "assumptions": PKI_ASSUME + ["time.Time.After/Before/Equal executed for real (merged)"],
@@ -274,15 +274,14 @@ CHECKS["C11"] = {
     "quick": {"match": "^H11", "budget": 900},
     "thorough": {"match": "^[HT]11", "budget": 3000, "query_timeout_ms": 120000},
     "replay": "model",
-    "native_replay": ["H11e_SignatureToDER", "H11f_SignatureToDER_WrongLength"],
+    "native_replay": ["H11e_SignatureToDER", "H11f_SignatureToDER_WrongLength", "H11j_RawFormOfHonestQuoteParses"],
     "what": "verify.TdxQuote at the three option levels in the HONEST world: the stubs are constrained to what an honest platform and endpoint "
             "produce (signature predicates true on the harness's own serialisations, report data = SHA256(key||auth)||0, three well-formed "
             "CERTIFICATE blocks with optional trailing NUL, chain root = trusted root, all instants inside all windows, matching identity fields, a "
             "matching UpToDate level at any position among 2, CRLs listing only other serials, some distribution point answering); all field "
-            "contents, QE auth data lengths {0,32,64} (thorough: 1, 200), symbolic-length extra bytes; asserted: err == nil",
+            "contents, QE auth data lengths {0,32,64} (thorough: 1, 200), symbolic-length extra bytes; asserted: err == nil H11g/h: the same on an options value carrying arbitrary private left-overs (another platform's chain, collateral, extensions). H11e/f: abi.SignatureToDER with golang.org/x/crypto/cryptobyte executed for real: for every 64-byte r||s the output is the minimal DER SEQUENCE{INTEGER r, INTEGER s} (leading zero octets stripped, 0x00 prefixed when the top bit is set, zero = 02 01 00), other lengths are errors",
     "bounds": {"tcb_levels": "2", "module_identities": "1", "qe_levels": "2", "distribution_points": "2", "qe_auth_data": "{0,32,64} quick, +{1,200} thorough"},
     "outside": ["acceptance of Intel's sample quote under real cryptography (a concrete run the repository's tests already do)",
-                "DER minimality of the r/s integers handed to crypto/ecdsa (the DER blob is abstract; seeded change C11A ends inconclusive)",
                 "formatting of symbolic integers wider than 32 bits or with verbs other than %d %x %v (opaque strings)",
                 "Processor-CA intermediates (rejected by the fixed name check; recorded as a modelling decision, not claimed either way)"],
     "assumptions": PKI_ASSUME,
@@ -297,7 +296,7 @@ CHECKS["C16"] = {
             "capacity; built with spare capacity; built with cap == len), the raw input and the option byte strings are frozen over their whole "
             "backing store (to capacity) together with the repository's package-level variables, then verify.TdxQuote (three levels, stubs answering "
             "symbolically), ExtractChainFromQuote, abi.QuoteToAbiBytes and validate.TdxQuote run; any store / copy / in-place append into frozen "
-            "memory on a feasible path is a finding; parse result disjoint from the input; serialisation result is fresh memory",
+            "memory on a feasible path is a finding; parse result disjoint from the input; serialisation result is fresh memory H16p: pcs.PckCertificateExtensions with every package-level variable of the module frozen together with everything reachable from it, spare capacity included (re-allocating appends get the capacity the gc runtime gives them)",
     "bounds": {"tcb_levels": "1", "qe_auth_data": "16 / 32 bytes", "spare_capacity": "16..48 bytes (symbolic contents)"},
     "outside": ["interleavings are not explored: absence of shared writes (write-set argument, DESIGN.md C16) is what rules out data races",
                 "writes inside library code behind stubs (assumed not to write to their arguments)", "logger's own synchronisation"],
@@ -313,7 +312,7 @@ CHECKS["C18"] = {
             "symbolic quote and symbolic policy, verify.TdxQuote summarised as a symbolic verdict (its content is C01-C07), go-eventlog's "
             "ReplayAndExtract as the uninterpreted predicate ReplayOK(table, log, (index_i, digest_i)); asserted: a state is returned only if "
             "verification passed, the policy verdict is nil and ReplayOK holds for exactly the bank [(i, quote.RTMR[i]) for i < 4]; no replay "
-            "before both gates; the default options bind REPORT_DATA to nonce || 0",
+            "before both gates; the default options bind REPORT_DATA to nonce || 0 H18f: a second call on the SAME options and quote objects after a call that returned a state, with the quote no longer verifying / the policy replaced / an RTMR replaced: both gates and the replay run again on the current contents",
     "bounds": {"policy": "none / REPORT_DATA / MR_TD + minimum QE SVN", "rtmr_count_for_extraction": "0..6"},
     "outside": ["go-eventlog's replay itself (contract stub)", "what verify.TdxQuote checks (C01-C07)"],
     "assumptions": ["verify.TdxQuote does not modify the quote (C16)", "ccel.ReplayAndExtract returns a state iff replaying the log reproduces every supplied register"],
